@@ -184,6 +184,16 @@ def run(env, tier, seed, broken=None):
             cid = 't%d' % n; n += 1
             cases.append({'id': cid, 'src': s2, 'stdin': stdin, 'family': '+'.join(todo)})
             pairs.append((cid0, cid, names, '+'.join(todo)))
+    # explicit pairs for the parentheses family: every operand position, also of prefix operators
+    pre = '%s x = 5; %s s = "5"; %s t = %s; %s a = [1, 2]; %s f(v) { %s v; }\n' % (VAR, VAR, VAR, TRUE, VAR, FUN, RETURN)
+    for o, tr in [('--s + 1', '-(-s) + 1'), ('--t', '-(-t)'), ('-~s', '-(~s)'), ('~-x', '~(-x)'), ('!-x', '!(-x)'), ('--x', '-(-(x))'), ('2 ** -~x', '2 ** (-(~x))'),
+                  ('--s == 5', '(-(-s)) == 5'), ('x = x + 1', '(x = (x + 1))'), ('a[0] = x', 'a[(0)] = (x)'), ('f(x)', 'f((x))'), ('a[1]', '(a)[(1)]'), ('f(x) + a[0]', '(f(x)) + (a[0])'),
+                  ('!t || x', '(!(t)) || (x)'), ('--nil', '-(-nil)'.replace('nil', NIL)), ('-!-x', '-(!(-x))'), ('~~s', '~(~s)'), ('- -s', '-(-(s))')]:
+        c1 = {'id': 'po%d' % n, 'src': pre + '%s %s;\n%s x;\n' % (PRINT, o, PRINT)}
+        c2 = {'id': 'pt%d' % n, 'src': pre + '%s %s;\n%s x;\n' % (PRINT, tr, PRINT), 'family': 'parens-explicit'}
+        n += 1
+        cases += [c1, c2]
+        pairs.append((c1['id'], c2['id'], {}, 'parens-explicit'))
     mism, ri, rm = diff_runs(env, cases)
     byid = {c['id']: c for c in cases}
     nontriv = set()
